@@ -81,6 +81,54 @@ func zzBitLenAbs(x *big.Int, maxBits int) int {
 	return n
 }
 
+// The estimators alone on operands of any length up to 65536 words (4 Mbit): the word lengths la, lb
+// are the symbolic inputs, the operands are arbitrary values of exactly those lengths (only the length
+// is visible to the estimator; natively the largest value of that length), the result-length bounds
+// are the mathematical ones (each is attained by some operands of those lengths).
+func zzLen() int {
+	n := zzNondetInt()
+	zzAssume(n >= 0 && n <= 1<<16)
+	return n
+}
+
+func zzMaxInt(a, b int) int { return zzIteInt(a >= b, a, b) }
+
+//verif:harness property=C32 mode=int stubs=absbits timeout=120
+func ZZ_C32_Estimator_Plus_AnyLength() {
+	la, lb := zzLen(), zzLen()
+	u := common.NewPlusBigIntMemoryUsage(zzBigWithWords(la), zzBigWithWords(lb))
+	zzAssert("estimate-covers-sum-length", zzOr(zzAnd(la == 0, lb == 0), u.Amount >= uint64(8*(zzMaxInt(la, lb)+1))))
+}
+
+//verif:harness property=C32 mode=int stubs=absbits timeout=120
+func ZZ_C32_Estimator_Minus_AnyLength() {
+	la, lb := zzLen(), zzLen()
+	u := common.NewMinusBigIntMemoryUsage(zzBigWithWords(la), zzBigWithWords(lb))
+	zzAssert("estimate-covers-difference-length", zzOr(zzAnd(la == 0, lb == 0), u.Amount >= uint64(8*(zzMaxInt(la, lb)+1))))
+}
+
+//verif:harness property=C32 mode=int stubs=absbits timeout=120
+func ZZ_C32_Estimator_Mul_AnyLength() {
+	la, lb := zzLen(), zzLen()
+	u := common.NewMulBigIntMemoryUsage(zzBigWithWords(la), zzBigWithWords(lb))
+	zzAssert("estimate-covers-product-length", zzOr(zzOr(la == 0, lb == 0), u.Amount >= uint64(8*(la+lb))))
+}
+
+//verif:harness property=C32 mode=int stubs=absbits timeout=120
+func ZZ_C32_Estimator_DivMod_AnyLength() {
+	la, lb := zzLen(), zzLen()
+	zzAssume(lb > 0)
+	// divisors of 100 words and more take the estimator's recursive-division branch, whose
+	// product of two symbolic lengths no solver here decides (unknown after 250 s): outside
+	zzAssume(lb < 100)
+	u := common.NewModBigIntMemoryUsage(zzBigWithWords(la), zzBigWithWords(lb))
+	// quotient: at most la-lb+1 words (none if la < lb); remainder: at most min(la, lb) words
+	q := zzIteInt(la >= lb, la-lb+1, 0)
+	r := zzIteInt(la <= lb, la, lb)
+	zzAssert("estimate-covers-quotient-length", u.Amount >= uint64(8*q))
+	zzAssert("estimate-covers-remainder-length", u.Amount >= uint64(8*r))
+}
+
 //verif:harness property=C32 mode=int stubs=absbits timeout=120
 func ZZ_C32_Estimator_LeftShift_Large() {
 	A, S := zzNondetBigBits(128), zzNondetBigBits(20)
